@@ -43,7 +43,16 @@ def to_coq(c, obs):
 def correspond_sem(res, n):
     rng = random.Random(res.seed * 104729 + 3)
     cases = json.load(open(core.VERIF + '/corpus/C10.json')) + gen_cases(rng, n)
-    outs = core.run_driver('laxsem_driver.py', cases)
+    probes = [[n, m, 'release'] for n in (1, 2, 3) for m in (1, 2) if m <= n]
+    both = core.run_driver('laxsem_driver.py', dict(cases=cases, probes=probes))
+    outs = both['cases']
+    for pr in both['probes']:
+        # two concurrent releases with `missing` slots taken: value must be min(n, value + 2) and never above the bound
+        if pr['value'] > pr['bound'] or pr['hung']:
+            res.alarms.append(dict(signature='C10:concurrent-release-exceeds-bound',
+                                   what='two threads releasing concurrently on a size-%d semaphore with %d slot(s) taken: value %d, bound %d%s'
+                                        % (pr['n'], pr['missing'], pr['value'], pr['bound'], ' (hung)' if pr['hung'] else ''),
+                                   replay=dict(kind='race-probe', probe=pr)))
     terms = [to_coq(c, o) for c, o in zip(cases, outs)]
     codes, _ = core.coq_eval('C10', HEADER, core.chunks(terms, 400))
     distinct = len({json.dumps(c) for c in cases if len(set(c['ops'])) >= 3})
@@ -70,7 +79,7 @@ def correspond_sem(res, n):
                 samples=[dict(case=cases[-1], impl=outs[-1])],
                 rule='random sequences over acquire/release/grow/shrink/clear/wake-blocked-shrink, sizes 0-8; '
                      'non-trivial = at least three distinct op kinds',
-                op_histogram=hist)
+                op_histogram=hist, concurrent_release_probes=len(probes))
     for i, code in codes:
         res.alarms.append(dict(signature='C10:semaphore-differs',
                                what='LaxBoundedSemaphore differs from the proved model on %s: impl %s'
@@ -79,7 +88,7 @@ def correspond_sem(res, n):
 
 
 def run(res):
-    res.proof_step('Props/C10.v', extra_targets=['Model/LaxSem.vo', 'Model/Pool.vo'], kernels_needed=['K_laxsem'])
+    res.proof_step('Props/C10.v', extra_targets=['Model/LaxSem.vo', 'Model/Pool.vo'], kernels_needed=['K_laxsem', 'G_laxsem_atomic'])
     n = 400 if res.tier == 'quick' else 20000
     if res.broken:
         n = max(n, 5000)
@@ -95,6 +104,13 @@ def run(res):
 
 def replay(path):
     d = json.load(open(path))
+    if (d.get('replay') or {}).get('kind') == 'race-probe':
+        pr = d['replay']['probe']
+        out = core.run_driver('laxsem_driver.py', dict(cases=[], probes=[[pr['n'], pr['missing'], pr['op']]]))['probes'][0]
+        print('probe now:', json.dumps(out))
+        return 1 if out['value'] > out['bound'] or out['hung'] else 0
+    if (d.get('replay') or {}).get('kind') == 'pool-history':
+        return pc.pool_replay(path)
     c = d['replay']['case']
     out = core.run_driver('laxsem_driver.py', [c])[0]
     print('case:', json.dumps(c))
